@@ -189,6 +189,9 @@ def roundtrip(ctx):
     from eudoxia.simulator import parse_args_with_defaults
     import contextlib
     rng = random.Random(ctx.seed + 2)
+    shared = tempfile.mkdtemp()
+    import atexit, shutil
+    atexit.register(shutil.rmtree, shared, True)
     for it in range(6 if ctx.quick() else 40):
         tps = rng.choice([1, 3, 7, 10, 100, 1000, 128, 4096, 65536])
         # also durations that are not a whole number of seconds (the run then ends inside a second)
@@ -208,7 +211,7 @@ def roundtrip(ctx):
             with open(pf, "w") as f:
                 for k, v in params.items():
                     f.write(f"{k} = {v}\n")
-            out = os.path.join(td, "t.csv")
+            out = os.path.join(shared, "t.csv")          # one path for all round trips of this check: overwritten, then replayed again
             with contextlib.redirect_stdout(io.StringIO()):
                 main(["gentrace", pf, out, "-f"])
             first_text = open(out).read()
